@@ -24,13 +24,13 @@ ASSUMPTIONS = [
 ]
 REQUIRED_CLASSES = ["offending-line-empty", "non-numeric-in-all-dot-column", "malformed-float", "sign-only", "bad-marker", "bad-plus", "non-numeric", "bad-strand", "fewer-columns", "more-columns", "double-columns",
                     "lazy", "eager", "gzip", "offender-not-in-first-chunk", "format-exception", "malformed-integer-among-signed-ones", "malformed-float-among-scientific-ones"]
-BOUNDS = {"quick": "core: fasta2, fastq, bed3, bed6 with 2..3 records of width 1..2, all p, all k, 4 flag combinations; every malformed-number text at every record of a three-record bedGraph, narrowPeak and BED6 file; 60 sampled files for each of 9 formats",
+BOUNDS = {"quick": "core: fasta2, fastq, bed3, bed6 with 2..3 records of width 1..2, all p, all k, 4 flag combinations; every malformed-number text at every record of a three-record bedGraph, narrowPeak and BED6 file; 60 sampled files for each of 11 formats",
           "thorough": "core: 2..4 records widths {1,2,5}; 1200 sampled files per format"}
 BUDGET_S = {"quick": 200, "thorough": 1500}
 
-NUMERIC_COLS = {"bed3": [1, 2], "bed6": [1, 2, 4], "bdg": [1, 2], "narrowpeak": [1, 2, 9], "vcf": [1], "sam": [1, 3, 4], "gtf": [3, 4],
+NUMERIC_COLS = {"bed3": [1, 2], "bed6": [1, 2, 4], "bdg": [1, 2], "narrowpeak": [1, 2, 9], "vcf": [1], "sam": [1, 3, 4], "gtf": [3, 4], "gff": [3, 4], "wig": [1, 2],
                 "chromsizes": [1]}
-STRAND_COLS = {"bed6": 5, "narrowpeak": 5, "gtf": 6}
+STRAND_COLS = {"bed6": 5, "narrowpeak": 5, "gtf": 6, "gff": 6}
 BAD_NUM = ["x", "12a", "a12", "1x2", "1P", "P", "1.5x", "7Q", "3 ", "-", "+", "1-", "--1", "1-2"]
 # float-typed columns and texts that are not decimal or scientific numbers (a lone sign, two decimal points, an exponent without digits)
 FLOAT_COLS = {"bdg": [3], "narrowpeak": [6, 7, 8]}
@@ -316,7 +316,7 @@ def task_sampled(stats, known_open, fmt, n, seed, max_records, W):
 
 
 CORE_FMTS = ["fasta2", "fastq", "bed3", "bed6"]
-SAMPLED_FMTS = ["fasta2", "fastq", "bed3", "bed6", "bdg", "narrowpeak", "vcf", "sam", "gtf"]
+SAMPLED_FMTS = ["fasta2", "fastq", "bed3", "bed6", "bdg", "narrowpeak", "vcf", "sam", "gtf", "gff", "wig"]
 
 
 def tasks(tier, seed):
